@@ -898,3 +898,64 @@ def run(ctx):
             ctx.ok(R_size, {"constant": var, "type": owner.split("::")[-1], "versions": checked})
         else:
             ctx.note_unarmed(R_size, var, "width not computable (variable-length member)")
+
+
+def run_extra(ctx):
+    """rules armed after run(): they need nothing from run()'s locals"""
+    m2 = ctx.prog.crate("wow_m2")
+    # (1) an emptiness guard is about what its block writes: `if !self.X.is_empty() { .. }` in model.rs mentions self.X again inside
+    # the guarded block (a guard copied from the neighbouring section and left on the neighbour's data writes this section's
+    # key-frames only when the *other* section has some)
+    R_g = ctx.rule("C13.emptiness-guard-names-what-its-block-writes", "in model.rs every `if [!]self.<field path>.is_empty()` guard's live block reads that same field path again", floor=30)
+    for f in m2.fn_list:
+        if f.kind == "Closure" or not f.hir or "::tests::" in f.path or not f.file.endswith("wow-m2/src/model.rs"):
+            continue
+        for n in hirq.find(f.hir["body"], "if"):
+            c = hirq.strip(n["c"])
+            neg = False
+            if c.get("k") == "un" and c.get("op") == "Not":
+                neg, c = True, hirq.strip(c["e"])
+            if not (c.get("k") == "mcall" and c["m"] == "is_empty" and not c.get("args")):
+                continue
+            subj = hirq.render(c["recv"])
+            if not subj.startswith("self."):
+                continue
+            blk = n["then"] if neg else n.get("else")
+            if blk is None:
+                continue
+            ctx.saw_fn(f)
+            fields = [hirq.render(x) for x in hirq.walk(blk) if x.get("k") == "field"]
+            inst = {"fn": norm(f.path).split("::")[-1], "guard": subj}
+            if any(subj == r_ or r_.startswith(subj + ".") or subj in r_ for r_ in fields):
+                ctx.ok(R_g, inst) if len(ctx.samples) < 380 else (ctx.rules[R_g].__setitem__("obligations", ctx.rules[R_g]["obligations"] + 1), ctx.rules[R_g].__setitem__("discharged", ctx.rules[R_g]["discharged"] + 1))
+            else:
+                sib = sorted({r_ for r_ in fields if r_.startswith("self.") and r_.rsplit(".", 1)[0] == subj.rsplit(".", 1)[0] and r_ != subj})
+                ctx.bad(R_g, "%s|%s|guard-subject-unused" % (inst["fn"], subj.split(".")[-1]), "%s:%d" % (f.file, n.get("ln") or 0),
+                        "the block guarded by `%s%s.is_empty()` never reads %s (it reads %s)" % ("!" if neg else "", subj, subj, ", ".join(sib[:3]) or "other data"),
+                        "whether this section's data is written depends on whether a *different* collection is empty: a model that has the one and not the other loses the section's key-frames (or writes an empty section as populated)")
+    # (2) the header size used to lay out the file is the size of the header *as written*: M2Model::write clears some optional
+    # header references on its copy before serialising it; the size calculation must not count a field on the strength of the
+    # model's own (uncleared) header
+    R_h = ctx.rule("C13.header-size-counts-the-header-as-written", "calculate_header_size reads no header field that M2Model::write resets (`header.<f> = None`) on the copy it serialises", floor=2)
+    wr = next((x for x in m2.fn_list if x.hir and x.kind != "Closure" and norm(x.path).endswith("model::M2Model::write")), None)
+    cs = next((x for x in m2.fn_list if x.hir and x.kind != "Closure" and norm(x.path).endswith("model::M2Model::calculate_header_size")), None)
+    if wr is None or cs is None:
+        ctx.bad(R_h, "header-size|missing", "-", "M2Model::write / calculate_header_size not found", "anchor gone")
+        return
+    ctx.saw_fn(wr)
+    ctx.saw_fn(cs)
+    cleared = set()
+    for a in hirq.find(wr.hir["body"], "assign"):
+        l_ = hirq.strip(a["l"])
+        r_ = hirq.strip(a["r"])
+        if l_.get("k") == "field" and hirq.strip(l_["e"]).get("k") == "path" and r_.get("k") == "path" and (r_["res"].get("def") or "").endswith("Option::None") and re.search(r"M2Header", m2.ty(hirq.strip(l_["e"]).get("t")) or ""):
+            cleared.add(l_["name"])
+    read = {x["name"] for x in hirq.walk(cs.hir["body"]) if x.get("k") == "field" and re.search(r"M2Header", m2.ty(hirq.strip(x["e"]).get("t")) or "")}
+    if not cleared:
+        ctx.bad(R_h, "header-size|no-cleared-fields", wr.where, "no `header.<field> = None` found in M2Model::write", "shape changed")
+    for fl in sorted(cleared):
+        if fl in read:
+            ctx.bad(R_h, "header-size|counts|%s" % fl, cs.where, "calculate_header_size consults `header.%s`, which write() sets to None on the header it serialises" % fl,
+                    "for a model whose header carries that optional reference (a parsed or converted model) every array offset is laid out past bytes the header never contains: name, sequences, bones, vertices are read from the wrong place after write -> parse")
+        else:
+            ctx.ok(R_h, {"cleared_in_write": fl, "read_by_size": False})
